@@ -17,7 +17,9 @@ pub const FLOORS: &[&str] = &[
     "line_starts_with:number_beyond_32_bits",
 ];
 
-const MB: &[&str] = &["\u{e9}", "\u{2713}", "\u{1F34B}", "\u{0301}", "\u{a0}", "\u{3000}", "\u{ff10}"];
+const MB: &[&str] = &["\u{e9}", "\u{2713}", "\u{1F34B}", "\u{0301}", "\u{a0}", "\u{3000}", "\u{ff10}",
+    // characters whose lower- or upper-case form has another UTF-8 length (Kelvin, Ohm, dotted I, capital sharp s, Angstrom, sharp s, 'n, j-caron)
+    "\u{212a}", "\u{2126}", "\u{130}", "\u{1e9e}", "\u{212b}", "\u{df}", "\u{149}", "\u{1f0}"];
 
 /// Replacement tokens of every kind, including directives *with* their operand and `.break`.
 const TOKEN_POOL: &[(&str, &str)] = &[
@@ -48,7 +50,7 @@ const TOKEN_POOL: &[(&str, &str)] = &[
 const CHAR_POOL: &[char] = &[
     ' ', '\t', '\n', '\r', ',', ':', ';', '"', '\\', '.', '#', 'x', 'X', '0', '1', '7', '8', '9', 'r',
     'R', 'a', 'f', 'g', 'z', '_', '-', '+', '@', '\0', '\u{7f}', '\u{1b}', '\u{e9}', '\u{2713}',
-    '\u{1F34B}', '\u{feff}', '\u{85}', '\u{2028}', '/', '*', '(', ')', '%', '\'', '\x0c', '\x0b',
+    '\u{1F34B}', '\u{feff}', '\u{85}', '\u{2028}', '\u{212a}', '\u{130}', '\u{2126}', '\u{df}', '/', '*', '(', ')', '%', '\'', '\x0c', '\x0b',
 ];
 
 fn token_spans(text: &str) -> Vec<(usize, usize)> {
